@@ -104,11 +104,12 @@ Definition av_form (e : encoding) (v : aval) : N * option Z :=
 Definition assert_form (dbg : bool) (e : encoding) (v : aval) (form : N) : res unit :=
   dassert dbg (fst (av_form e v) =? form).
 
-(* FileId::raw(version) on Option<FileId>: `.map(|id| id.raw(v)).unwrap_or(0)` *)
-Definition file_raw (dbg : bool) (e : encoding) (f : option N) : res N :=
+(* `.map(|id| id.raw(unit.line_program.version())).unwrap_or(0)`: FileId::raw is 1-based up to DWARF 4.
+   `lpv` = version of the unit's line program (LineProgram::none() has version 2). *)
+Definition file_raw (dbg : bool) (lpv : N) (f : option N) : res N :=
   match f with
   | None => Ok 0
-  | Some i => if e_ver e <=? 4 then chk_add 64 dbg i 1 else Ok i
+  | Some i => if lpv <=? 4 then chk_add 64 dbg i 1 else Ok i
   end.
 
 Definition blen (bs : list byte) : N := N.of_nat (length bs).
@@ -117,7 +118,7 @@ Definition blen (bs : list byte) : N := N.of_nat (length bs).
 Definition sec_offset_assert (dbg : bool) (e : encoding) (v : aval) : res unit :=
   if 4 <=? e_ver e then assert_form dbg e v DW_FORM_sec_offset else Ok tt.
 
-Definition av_size (dbg : bool) (e : encoding) (v : aval) : res N :=
+Definition av_size (dbg : bool) (e : encoding) (lpv : N) (v : aval) : res N :=
   let udata_like (x : N) := let* _ := assert_form dbg e v DW_FORM_udata in Ok (uleb128_size x) in
   match v with
   | AvAddress _ => let* _ := assert_form dbg e v DW_FORM_addr in Ok (e_asz e)
@@ -161,7 +162,7 @@ Definition av_size (dbg : bool) (e : encoding) (v : aval) : res N :=
   | AvInline x | AvOrdering x => udata_like x
   | AvFileIndex f =>
       let* _ := assert_form dbg e v DW_FORM_udata in
-      let* raw := file_raw dbg e f in Ok (uleb128_size raw)
+      let* raw := file_raw dbg lpv f in Ok (uleb128_size raw)
   end.
 
 (* ------------------------------------------------------------------ AttributeValue::write *)
@@ -192,7 +193,8 @@ Record wcx := mkWcx {
   wc_lstr : list N;            (* LineStringTable.offsets *)
   wc_str : list N;             (* StringTable.offsets *)
   wc_rng : list N;             (* RangeListOffsets *)
-  wc_loc : list N              (* LocationListOffsets *)
+  wc_loc : list N;             (* LocationListOffsets *)
+  wc_lpv : N                   (* unit.line_program.version() *)
 }.
 
 (* `self.offsets[id.index]` *)
@@ -271,7 +273,7 @@ Definition av_write (dbg : bool) (cx : wcx) (v : aval) : res (list wop) :=
   | AvInline x | AvOrdering x => udata_like x
   | AvFileIndex f =>
       let* _ := assert_form dbg e v DW_FORM_udata in
-      let* raw := file_raw dbg e f in bytes (write_uleb128 raw)
+      let* raw := file_raw dbg (wc_lpv cx) f in bytes (write_uleb128 raw)
   end.
 
 (* ------------------------------------------------------------------ abbreviations *)
@@ -372,21 +374,21 @@ Definition die_abbrev (dbg : bool) (e : encoding) (d : die) : res abbrev :=
   end.
 
 (* DebuggingInformationEntry::size *)
-Fixpoint attrs_size (dbg : bool) (e : encoding) (acc : N) (attrs : list (N * aval)) : res N :=
+Fixpoint attrs_size (dbg : bool) (e : encoding) (lpv : N) (acc : N) (attrs : list (N * aval)) : res N :=
   match attrs with
   | [] => Ok acc
   | (_, v) :: r =>
-      let* s := av_size dbg e v in
+      let* s := av_size dbg e lpv v in
       let* acc' := chk_add 64 dbg acc s in
-      attrs_size dbg e acc' r
+      attrs_size dbg e lpv acc' r
   end.
 
-Definition die_size (dbg : bool) (e : encoding) (d : die) (code : N) : res N :=
+Definition die_size (dbg : bool) (e : encoding) (lpv : N) (d : die) (code : N) : res N :=
   match d with
   | Die _ _ sib attrs ch =>
       let size := uleb128_size code in
       let* size := (if sib && has_kids ch then chk_add 64 dbg size (wsz e) else Ok size) in
-      attrs_size dbg e size attrs
+      attrs_size dbg e lpv size attrs
   end.
 
 (* `v[i] = x` on a Vec: index panic when out of range *)
@@ -406,14 +408,14 @@ Record cst := mkCst {
 }.
 
 (* DebuggingInformationEntry::calculate_offsets *)
-Fixpoint calc (dbg : bool) (e : encoding) (d : die) (st : cst) : res cst :=
+Fixpoint calc (dbg : bool) (e : encoding) (lpv : N) (d : die) (st : cst) : res cst :=
   match d with
   | Die id _ _ _ ch =>
       let* ents := set_nth id (cs_off st) (cs_entries st) in
       let* ab := die_abbrev dbg e d in
       let (code, tab) := abbrev_add (cs_abbrevs st) ab in
       let* codes := set_nth id code (cs_codes st) in
-      let* sz := die_size dbg e d code in
+      let* sz := die_size dbg e lpv d code in
       let* off := chk_add 64 dbg (cs_off st) sz in
       let st1 := mkCst off ents tab codes in
       match ch with
@@ -422,7 +424,7 @@ Fixpoint calc (dbg : bool) (e : encoding) (d : die) (st : cst) : res cst :=
           let* st2 := (fix go (l : list die) (s : cst) : res cst :=
                          match l with
                          | [] => Ok s
-                         | c :: r => let* s' := calc dbg e c s in go r s'
+                         | c :: r => let* s' := calc dbg e lpv c s in go r s'
                          end) ch st1 in
           (* Null child *)
           let* off2 := chk_add 64 dbg (cs_off st2) 1 in
@@ -433,8 +435,11 @@ Fixpoint calc (dbg : bool) (e : encoding) (d : die) (st : cst) : res cst :=
 (* UnitOffsets::debug_info_offset *)
 Definition debug_info_offset (dbg : bool) (unit : nat) (entries : list N) (id : eid) : res (option N) :=
   let* _ := dassert dbg (Nat.eqb unit (id_unit id)) in
-  let* o := idx_get entries (id_idx id) in
-  Ok (if o =? 0 then None else Some o).
+  (* `*self.entries.get(entry.index)?`: an id that was reserved but never added may lie beyond the entries *)
+  match nth_error entries (id_idx id) with
+  | None => Ok None
+  | Some o => Ok (if o =? 0 then None else Some o)
+  end.
 
 (* UnitOffsets::unit_offset *)
 Definition unit_offset (dbg : bool) (unit : nat) (unit_off : N) (entries : list N) (id : eid) : res (option N) :=
@@ -629,6 +634,7 @@ Fixpoint tree_of (fuel : nat) (ents : list entry) (i : nat) : res die :=
 Record uparams := mkUparams {
   up_lp_none : bool;            (* line_program.is_none() *)
   up_lp_nonempty : bool;        (* !line_program.is_empty() *)
+  up_lp_version : N;            (* line_program.version() (2 for LineProgram::none()) *)
   up_lp_write : res N;          (* result of line_program.write: its .debug_line offset *)
   up_rng : res (list N);        (* result of ranges.write *)
   up_loc : res (list N)         (* result of locations.write *)
@@ -692,10 +698,10 @@ Definition unit_write (dbg be : bool) (uidx : nat) (u : wunit) (p : uparams)
   let n := length ents2 in
   let* root := tree_of (S n) ents2 0 in
   let pos0 := unit_off + blen header in
-  let* st := calc dbg e root (mkCst pos0 (repeat 0 n) [] (repeat 0 n)) in
+  let* st := calc dbg e (up_lp_version p) root (mkCst pos0 (repeat 0 n) [] (repeat 0 n)) in
   let* rng := up_rng p in
   let* loc := up_loc p in
-  let cx := mkWcx e be uidx unit_off (cs_entries st) (cs_codes st) line lstr str rng loc in
+  let cx := mkWcx e be uidx unit_off (cs_entries st) (cs_codes st) line lstr str rng loc (up_lp_version p) in
   let* ops := write_die dbg cx root pos0 in
   let sec1 := info ++ header ++ ops_bytes ops in
   (* write_initial_length_at *)
